@@ -74,7 +74,7 @@ def scenario(rng, ty=None, site=None):
 
 def build(scens):
     """-> (script, expect) with expect = {"vars": {name: cpp type}, "fns": {name: cpp return type}}"""
-    pre, fns_late, loop = ["sel = 3"] + HELPERS, [], []
+    pre, fns_late, loop = ["sel = 3"], [], []
     ev, ef = {"sel": "int"}, {}
     for k, sc in enumerate(scens):
         T, site = sc["type"], sc["site"]
@@ -162,6 +162,12 @@ def build(scens):
         ev[s] = cpp
         if sc["tag"]:
             loop.append(f"mon.write({tag}())" if TYPES[T]["scalar"] else f"mon.write({tag}()[0])")
+    body = "\n".join(pre + fns_late + loop)
+    helpers = []                                   # only the helper globals some element expression mentions
+    for key, lines in (("hf", HELPERS[0:1]), ("hu", HELPERS[1:2]), ("hys", HELPERS[2:3]), ("dbl(", HELPERS[3:5])):
+        if key in body:
+            helpers += lines
+    pre = pre[:1] + helpers + pre[1:]
     src = HEAD + "\n".join(pre + fns_late + ["while True:"] + _ind(loop + ["sleep(100)"])) + "\n"
     return src, {"vars": ev, "fns": ef}
 
